@@ -237,11 +237,32 @@ class Run:
                 return None
             return self.model_value(model, val.val)
         if isinstance(val, MapV):
-            return {'dom': str(model.eval(val.dom, model_completion=True)),
-                    'val': str(model.eval(val.val, model_completion=True))}
+            return {'arr': str(model.eval(val.arr, model_completion=True))}
         if isinstance(val, (TupleV, ListV)):
             return [self.model_value(model, x) for x in val.items]
         return repr(val)
+
+    # ---- finite maps ----
+    def map_has(self, m, key):
+        srt = self.S.opt_sort(m.vkind)
+        return z3.Not(srt.recognizer(0)(z3.Select(m.arr, self.z(key, m.kkind))))
+
+    def map_get(self, m, key):
+        srt = self.S.opt_sort(m.vkind)
+        return self.wrap(srt.accessor(1, 0)(z3.Select(m.arr, self.z(key, m.kkind))), m.vkind)
+
+    def map_set(self, m, key, v):
+        srt = self.S.opt_sort(m.vkind)
+        m.arr = z3.Store(m.arr, self.z(key, m.kkind), srt.constructor(1)(self.z(v, m.vkind)))
+
+    def map_empty(self, kkind, vkind):
+        srt = self.S.opt_sort(vkind)
+        return MapV(z3.K(self.S.sort_of(kkind), srt.constructor(0)()), kkind, vkind)
+
+    def map_keys(self, m):
+        k = z3.Const(self.fresh_name('_mk'), self.S.sort_of(m.kkind))
+        srt = self.S.opt_sort(m.vkind)
+        return ZV(z3.Lambda([k], z3.Not(srt.recognizer(0)(z3.Select(m.arr, k)))), ('set', m.kkind))
 
     # ------------------------------------------------------------ value helpers
     @property
@@ -255,9 +276,7 @@ class Run:
         if isinstance(kind, tuple) and kind[0] == 'tuple':
             return TupleV([self.fresh(k, hint + str(i)) for i, k in enumerate(kind[1])])
         if isinstance(kind, tuple) and kind[0] == 'map':
-            ks, vs = self.S.sort_of(kind[1]), self.S.sort_of(kind[2])
-            return MapV(z3.Const(self.fresh_name(hint + '_dom'), z3.ArraySort(ks, z3.BoolSort())),
-                        z3.Const(self.fresh_name(hint + '_val'), z3.ArraySort(ks, vs)), kind[1], kind[2])
+            return MapV(z3.Const(self.fresh_name(hint), self.S.sort_of(kind)), kind[1], kind[2])
         if isinstance(kind, tuple) and kind[0] == 'obj':
             return self.fresh_obj(kind[1], hint)
         if kind == 'none':
@@ -357,6 +376,10 @@ class Run:
                 srt = self.S.tuple_sort(kind[1])
                 return srt.constructor(0)(*[self.z(x, k) for x, k in zip(items, kind[1])])
             raise OutOfReach('cannot convert empty sequence without kind')
+        if isinstance(v, MapV):
+            return v.arr
+        if isinstance(v, OptV) and kind is not None and not (isinstance(kind, tuple) and kind[0] == 'opt'):
+            return self.z(v.val, kind)       # used where the value is known not to be None
         if isinstance(v, OptV):
             srt = self.S.opt_sort(v.kind)
             return z3.If(v.isnone, srt.constructor(0)(), srt.constructor(1)(self.z(v.val, v.kind)))
@@ -423,8 +446,7 @@ class Run:
                 raise OutOfReach('truth through __len__')
             return True
         if isinstance(v, MapV):
-            k = z3.Const(self.fresh_name('k'), self.S.sort_of(v.kkind))
-            return z3.Exists([k], z3.Select(v.dom, k))
+            return v.arr != self.map_empty(v.kkind, v.vkind).arr
         if isinstance(v, (FuncV, ClassV, BoundV, BuiltinV, ModuleV, SpecFnV)):
             return True
         raise OutOfReach('truth of %r' % (v,))
@@ -844,6 +866,8 @@ class Run:
                 return self.class_attr(v.cls, attr)
             except KeyError:
                 pass
+            if isinstance(v.fields.get('data'), MapV) and attr in ('keys', 'items', 'values', 'get'):
+                return B.builtin_attr(self, v.fields['data'], attr)
             if self.total_access:
                 raise OutOfReach('attribute %s of %s' % (attr, v.cls.qualname))
             raise PyRaise('AttributeError', attr)
@@ -882,6 +906,8 @@ class Run:
         if isinstance(kind, tuple) and kind[0] == 'tuple':
             srt = self.S.tuple_sort(kind[1])
             return TupleV([self.wrap(srt.accessor(0, i)(e), k) for i, k in enumerate(kind[1])])
+        if isinstance(kind, tuple) and kind[0] == 'map':
+            return MapV(e, kind[1], kind[2])
         return ZV(e, kind)
 
     def adt_getattr(self, v, adt, attr):
@@ -1018,8 +1044,13 @@ class Run:
         for i, x in enumerate(args):
             if isinstance(x, StarArg):
                 star = i
+        star_val = None
         if star is not None:
-            raise OutOfReach('symbolic *args at call')
+            # f(a, b, *seq) with a symbolic sequence: only when it is last and feeds *args exactly
+            if star != len(args) - 1 or a.vararg is None or star != len(params) or kwargs:
+                raise OutOfReach('symbolic *args at call')
+            star_val = args[star].v
+            args = args[:star]
         for i, p in enumerate(params):
             if i < len(args):
                 env.vars[p] = args[i]
@@ -1031,7 +1062,9 @@ class Run:
                     raise PyRaise('TypeError', 'missing argument ' + p)
                 env.vars[p] = self.eval(a.defaults[di], defaults_env)
         extra = args[len(params):]
-        if a.vararg is not None:
+        if a.vararg is not None and star_val is not None:
+            env.vars[a.vararg.arg] = star_val
+        elif a.vararg is not None:
             env.vars[a.vararg.arg] = TupleV(extra)
         elif extra:
             raise PyRaise('TypeError', 'too many arguments')
@@ -1150,6 +1183,11 @@ class Run:
         values.update(olds)
         if c.returns is None or c.returns == 'none':
             result = None
+        elif c.pure_result is not None:
+            # functional contract: the result IS the spec function of the listed arguments
+            # (the body is verified against `result == f(args)` by the generated ensures clause)
+            sf = self.w.specs[c.pure_result[0]]
+            result = self.call_spec(sf, [values[a] for a in c.pure_result[1:]])
         else:
             result = self.fresh(c.returns, 'r_' + c.qualname.split('.')[-1])
         values['result'] = result
@@ -1214,6 +1252,13 @@ class Run:
         alts = []
         for c in adt.ctors:
             for f, k in c.fields:
+                if k == ('seq', adt.name):
+                    sq = c.acc[f](o)
+                    if z3.is_app(n) and n.decl().kind() == z3.Z3_OP_SEQ_NTH and \
+                            z3.simplify(n.arg(0)).eq(z3.simplify(sq)):
+                        alts.append(z3.And(c.rec(o), n.arg(1) >= 0, n.arg(1) < z3.Length(sq)))
+                    else:
+                        alts.append(z3.And(c.rec(o), z3.Contains(sq, z3.Unit(n))))
                 if k == adt.name:
                     child = c.acc[f](o)
                     alts.append(z3.And(c.rec(o), n == child))
@@ -1233,7 +1278,7 @@ class Run:
 
     def snapshot(self, v):
         if isinstance(v, MapV):
-            return MapV(v.dom, v.val, v.kkind, v.vkind)
+            return MapV(v.arr, v.kkind, v.vkind)
         if isinstance(v, ObjV):
             return ObjV(v.cls, {k: self.snapshot(x) for k, x in v.fields.items()})
         if isinstance(v, ListV):
@@ -1242,8 +1287,7 @@ class Run:
 
     def havoc_inplace(self, v, hint):
         if isinstance(v, MapV):
-            f = self.fresh(('map', v.kkind, v.vkind), hint)
-            v.dom, v.val = f.dom, f.val
+            v.arr = self.fresh(('map', v.kkind, v.vkind), hint).arr
         elif isinstance(v, ObjV):
             k = self.kind_of(v)
             r = self.S.records[k]
